@@ -1,3 +1,510 @@
 package extractfam
 
-func c15KnowsType(t string) bool { return true }
+// C15 — SBOMs the library writes can be read back by the library.
+//
+// A generated inventory (packages of a harness extractor whose ToPURL returns a generated
+// purl or nil) is exported with converter.ToSPDX23 / ToCDX and the binary/{spdx,cdx}
+// writers in all five formats into one temp directory, under file names the SBOM importers
+// recognise; the directory is scanned with scalibr.New().Scan using the sbom/spdx and
+// sbom/cdx extractors, and per file the multiset of read-back purl strings must equal the
+// exported ones (both sides normalised by one packageurl-go parse/print).
+
+import (
+	"context"
+	"fmt"
+	"os"
+	"path/filepath"
+	"sort"
+	"strings"
+	"testing"
+	"time"
+	"unicode"
+
+	"github.com/package-url/packageurl-go"
+	"pgregory.net/rapid"
+
+	scalibr "github.com/google/osv-scalibr"
+	bcdx "github.com/google/osv-scalibr/binary/cdx"
+	bspdx "github.com/google/osv-scalibr/binary/spdx"
+	"github.com/google/osv-scalibr/converter"
+	"github.com/google/osv-scalibr/extractor"
+	"github.com/google/osv-scalibr/extractor/filesystem"
+	cdxe "github.com/google/osv-scalibr/extractor/filesystem/sbom/cdx"
+	spdxe "github.com/google/osv-scalibr/extractor/filesystem/sbom/spdx"
+	scalibrfs "github.com/google/osv-scalibr/fs"
+	"github.com/google/osv-scalibr/inventory"
+	"github.com/google/osv-scalibr/plugin"
+	"github.com/google/osv-scalibr/purl"
+
+	"verifharness/internal/ev"
+)
+
+// purl types the built-in extractors emit (grep of purl.Type* in ToPURL implementations,
+// cross-checked at run time with the C14 fixture harvest).
+var c15Types = []string{
+	purl.TypeApk, purl.TypeBrew, purl.TypeCargo, purl.TypeCocoapods, purl.TypeComposer, purl.TypeConan, purl.TypeCOS, purl.TypeCran,
+	purl.TypeDebian, purl.TypeFlatpak, purl.TypeGem, purl.TypeGeneric, purl.TypeGolang, purl.TypeGooget, purl.TypeHaskell, purl.TypeHex,
+	purl.TypeKernelModule, purl.TypeMacApps, purl.TypeMaven, purl.TypeNix, purl.TypeNPM, purl.TypeNuget, purl.TypeOpkg, purl.TypePacman,
+	purl.TypePortage, purl.TypePub, purl.TypePyPi, purl.TypeRPM, purl.TypeSnap, purl.TypeWordpress,
+}
+
+func c15KnowsType(t string) bool {
+	for _, x := range c15Types {
+		if x == t {
+			return true
+		}
+	}
+	return false
+}
+
+type c15Qualifier struct {
+	Key   string `json:"key"`
+	Value string `json:"value"`
+}
+
+type c15Purl struct {
+	Type       string         `json:"type"`
+	Namespace  string         `json:"namespace,omitempty"`
+	Name       string         `json:"name"`
+	Version    string         `json:"version,omitempty"`
+	Qualifiers []c15Qualifier `json:"qualifiers,omitempty"`
+	Subpath    string         `json:"subpath,omitempty"`
+}
+
+type c15Package struct {
+	Name      string   `json:"name"`
+	Version   string   `json:"version"`
+	Locations []string `json:"locations"`
+	Purl      *c15Purl `json:"purl,omitempty"` // nil: the extractor returns no purl
+}
+
+type c15Case struct {
+	// Formats are the output formats to export and read back (CLI names).
+	Formats  []string     `json:"formats"`
+	Packages []c15Package `json:"packages"`
+}
+
+// harnessExtractor is the extractor the generated packages claim to come from.
+type harnessExtractor struct{}
+
+func (harnessExtractor) Name() string                       { return "verif/generated" }
+func (harnessExtractor) Version() int                       { return 1 }
+func (harnessExtractor) Requirements() *plugin.Capabilities { return &plugin.Capabilities{} }
+func (harnessExtractor) ToPURL(p *extractor.Package) *purl.PackageURL {
+	pu, _ := p.Metadata.(*purl.PackageURL)
+	return pu
+}
+func (harnessExtractor) Ecosystem(p *extractor.Package) string { return "" }
+
+var _ extractor.Extractor = harnessExtractor{}
+
+func (g *c15Purl) toPurl() *purl.PackageURL {
+	if g == nil {
+		return nil
+	}
+	p := &purl.PackageURL{Type: g.Type, Namespace: g.Namespace, Name: g.Name, Version: g.Version, Subpath: g.Subpath}
+	for _, q := range g.Qualifiers {
+		p.Qualifiers = append(p.Qualifiers, packageurl.Qualifier{Key: q.Key, Value: q.Value})
+	}
+	return p
+}
+
+// ---- generator ---------------------------------------------------------------------------
+
+// characters that need escaping in JSON, YAML, XML, tag-value or a purl
+var c15Special = []string{"\"", "'", "<", ">", "&", ":", "#", "\\", " ", "\t", "é", "日本語", "%", "+", "@", "/", "?", "=", "-", "_", ".", "~", "*", "|", "{", "}", "[", "]", ",", "!", "`", "$", ";", "]]>", "&amp;", "- ", ": ", " #", "%41", " ", " "}
+
+var c15Plain = "abcdefghijklmnopqrstuvwxyzABCDEFGHIJKLMNOPQRSTUVWXYZ0123456789"
+
+func c15Text(t *rapid.T, label string, min, max int, special bool) string {
+	n := rapid.IntRange(min, max).Draw(t, label+"_len")
+	var b strings.Builder
+	for i := 0; i < n; i++ {
+		if special && rapid.IntRange(0, 3).Draw(t, label+"_sp") == 3 {
+			b.WriteString(c15Special[rapid.IntRange(0, len(c15Special)-1).Draw(t, label+"_spc")])
+		} else {
+			b.WriteByte(c15Plain[rapid.IntRange(0, len(c15Plain)-1).Draw(t, label+"_c")])
+		}
+	}
+	return b.String()
+}
+
+var c15YamlWords = []string{"true", "false", "null", "~", "yes", "no", "on", "off", "1.0", "1e3", "0x1F", "007", "1_000", ".inf", "2001-12-14", "", "-", "?", "NOASSERTION", "NONE", "main"}
+
+func genC15Purl(t *rapid.T, col *ev.Collector) *c15Purl {
+	types := c15Types
+	ty := types[rapid.IntRange(0, len(types)-1).Draw(t, "type")]
+	if ty == purl.TypeSnap && col.IsKnown("c15.snap_purl_type") {
+		col.Excluded("c15.snap_purl_type")
+		ty = purl.TypeDebian
+	}
+	special := rapid.IntRange(0, 2).Draw(t, "special") > 0
+	g := &c15Purl{Type: ty}
+	if rapid.IntRange(0, 9).Draw(t, "typecase") == 9 {
+		g.Type = strings.ToUpper(ty[:1]) + ty[1:]
+	}
+	if rapid.IntRange(0, 5).Draw(t, "yamlname") == 5 {
+		g.Name = c15YamlWords[rapid.IntRange(0, len(c15YamlWords)-1).Draw(t, "yamlword")]
+	}
+	if g.Name == "" {
+		g.Name = c15Text(t, "pname", 1, 8, special)
+	}
+	switch rapid.IntRange(0, 6).Draw(t, "verkind") {
+	case 0:
+		g.Version = "" // purl without version
+	case 1:
+		g.Version = c15YamlWords[rapid.IntRange(0, len(c15YamlWords)-1).Draw(t, "yamlver")]
+	default:
+		g.Version = c15Text(t, "pver", 1, 8, special)
+	}
+	if ty == purl.TypeCran && g.Version == "" {
+		g.Version = "1.0" // packageurl-go: cran requires a version
+	}
+	if ty != purl.TypeConan { // packageurl-go: a conan namespace requires a channel qualifier
+		switch rapid.IntRange(0, 3).Draw(t, "nskind") {
+		case 1:
+			g.Namespace = c15Text(t, "ns", 1, 6, special && rapid.Bool().Draw(t, "ns_special"))
+		case 2:
+			g.Namespace = c15Text(t, "ns1", 1, 5, false) + "/" + c15Text(t, "ns2", 1, 5, special) + "/" + c15Text(t, "ns3", 1, 4, false)
+		}
+		// a namespace segment is never empty, "." or ".." in a canonical purl
+		segs := strings.Split(g.Namespace, "/")
+		out := segs[:0]
+		for _, s := range segs {
+			if s != "" {
+				out = append(out, s)
+			}
+		}
+		g.Namespace = strings.Join(out, "/")
+	}
+	nq := 0
+	if rapid.IntRange(0, 2).Draw(t, "hasq") == 2 {
+		nq = rapid.IntRange(1, 3).Draw(t, "nq")
+	}
+	keys := []string{"arch", "distro", "epoch", "source", "sourceversion", "origin", "classifier", "type", "repository_url", "download_url", "vcs_url", "file_name", "checksum", "x.y-z_1"}
+	used := map[string]bool{}
+	for i := 0; i < nq; i++ {
+		k := keys[rapid.IntRange(0, len(keys)-1).Draw(t, "qkey")]
+		if used[k] {
+			continue
+		}
+		used[k] = true
+		v := c15Text(t, "qval", 1, 8, special)
+		g.Qualifiers = append(g.Qualifiers, c15Qualifier{k, v})
+	}
+	sort.Slice(g.Qualifiers, func(i, j int) bool { return g.Qualifiers[i].Key < g.Qualifiers[j].Key })
+	if rapid.IntRange(0, 4).Draw(t, "subpath?") == 4 {
+		n := rapid.IntRange(1, 3).Draw(t, "subsegs")
+		var segs []string
+		for i := 0; i < n; i++ {
+			s := strings.ReplaceAll(c15Text(t, "subseg", 1, 6, special), "/", "_")
+			if s == "." || s == ".." || s == "" {
+				s = "x"
+			}
+			segs = append(segs, s)
+		}
+		g.Subpath = strings.Join(segs, "/")
+	}
+	return g
+}
+
+func genC15(col *ev.Collector) func(t *rapid.T) c15Case {
+	return func(t *rapid.T) c15Case {
+		n := rapid.IntRange(0, 12).Draw(t, "npkg")
+		var c c15Case
+		for _, f := range c15Formats {
+			// class c15.spdx_tag_value_supplier: the case exports spdx23-tag-value
+			known := col.IsKnown("c15.spdx_tag_value_supplier")
+			if f.id == "spdx23-tag-value" && known {
+				col.Excluded("c15.spdx_tag_value_supplier")
+				continue
+			}
+			if f.patchSupplier && (!known || os.Getenv("VERIF_C15_TAGVALUE_PATCHED") == "") {
+				// exploratory only: behind the supplier defect the tag-value round trip has
+				// further failures (literal "<text>" in a name or location, whitespace-only
+				// names) that are not triaged while the format is unreadable as a whole
+				continue
+			}
+			c.Formats = append(c.Formats, f.id)
+		}
+		for i := 0; i < n; i++ {
+			if len(c.Packages) > 0 && rapid.IntRange(0, 5).Draw(t, "dup") == 5 {
+				// duplicate package (same purl twice)
+				src := c.Packages[rapid.IntRange(0, len(c.Packages)-1).Draw(t, "dupof")]
+				c.Packages = append(c.Packages, src)
+				continue
+			}
+			var p c15Package
+			special := rapid.IntRange(0, 2).Draw(t, "pkg_special") > 0
+			if rapid.IntRange(0, 5).Draw(t, "nopurl") == 5 {
+				p.Name = c15Text(t, "name", 1, 8, special)
+				p.Version = c15Text(t, "version", 0, 6, special)
+			} else {
+				p.Purl = genC15Purl(t, col)
+				// like the built-in extractors: package name/version mirror the purl, mostly
+				p.Name, p.Version = p.Purl.Name, p.Purl.Version
+				if rapid.IntRange(0, 3).Draw(t, "othername") == 3 {
+					p.Name = c15Text(t, "name", 1, 8, special)
+				}
+			}
+			nl := rapid.IntRange(1, 3).Draw(t, "nloc")
+			for j := 0; j < nl; j++ {
+				p.Locations = append(p.Locations, c15Text(t, "locdir", 1, 6, false)+"/"+c15Text(t, "loc", 1, 8, special))
+			}
+			c.Packages = append(c.Packages, p)
+		}
+		return c
+	}
+}
+
+// ---- oracle ------------------------------------------------------------------------------
+
+type c15Format struct {
+	id   string // output format name of the CLI
+	file string // file name the importer recognises
+	spdx bool
+	// patchSupplier: the harness rewrites the "PackageSupplier: NOASSERTION: NOASSERTION"
+	// lines of the written file to the legal "PackageSupplier: NOASSERTION" before scanning,
+	// so that the tag-value round trip can be explored past known finding
+	// c15.spdx_tag_value_supplier. Only generated while that finding is listed.
+	patchSupplier bool
+}
+
+var c15Formats = []c15Format{
+	{"spdx23-json", "out.spdx.json", true, false},
+	{"spdx23-yaml", "out.spdx.yml", true, false},
+	{"spdx23-tag-value", "out.spdx", true, false},
+	{"cdx-json", "out.cdx.json", false, false},
+	{"cdx-xml", "out.cdx.xml", false, false},
+	{"spdx23-tag-value+supplier-patched", "patched.spdx", true, true},
+}
+
+// normPurl is the stated normalisation: one parse/print through packageurl-go.
+func normPurl(s string) (string, error) {
+	p, err := packageurl.FromString(s)
+	if err != nil {
+		return "", err
+	}
+	return p.ToString(), nil
+}
+
+func needsEscaping(s string) bool {
+	for _, r := range s {
+		if r > unicode.MaxASCII || strings.ContainsRune("\"'<>&:#\\ \t%+@?=*|{}[],!`$;~", r) {
+			return true
+		}
+	}
+	return false
+}
+
+func (c c15Case) classSnap() bool {
+	for _, p := range c.Packages {
+		if p.Purl != nil && strings.EqualFold(p.Purl.Type, purl.TypeSnap) {
+			return true
+		}
+	}
+	return false
+}
+
+func propC15(c c15Case) (ev.Outcome, error) {
+	ex := harnessExtractor{}
+	pkgs := make([]*extractor.Package, 0, len(c.Packages))
+	for _, gp := range c.Packages {
+		p := &extractor.Package{Name: gp.Name, Version: gp.Version, Locations: gp.Locations, Extractor: ex}
+		if pu := gp.Purl.toPurl(); pu != nil {
+			p.Metadata = pu
+		}
+		pkgs = append(pkgs, p)
+	}
+	res := &scalibr.ScanResult{
+		Version: "verif", StartTime: time.Unix(1700000000, 0), EndTime: time.Unix(1700000001, 0),
+		Status:    &plugin.ScanStatus{Status: plugin.ScanStatusSucceeded},
+		Inventory: inventory.Inventory{Packages: pkgs},
+	}
+	// expectation
+	var wantCDX, wantSPDX []string
+	escaping := false
+	for _, gp := range c.Packages {
+		for _, s := range append([]string{gp.Name, gp.Version}, gp.Locations...) {
+			escaping = escaping || needsEscaping(s)
+		}
+		pu := gp.Purl.toPurl()
+		if pu == nil {
+			continue
+		}
+		escaping = escaping || needsEscaping(pu.Name) || needsEscaping(pu.Version) || needsEscaping(pu.Namespace) || needsEscaping(pu.Subpath)
+		for _, q := range pu.Qualifiers {
+			escaping = escaping || needsEscaping(q.Value)
+		}
+		s := pu.String()
+		n, err := normPurl(s)
+		if err != nil {
+			return ev.Outcome{}, fmt.Errorf("exported purl %q (from %+v) is not parsable by packageurl-go: %v", s, *gp.Purl, err)
+		}
+		wantCDX = append(wantCDX, n)
+		if pu.Name != "" && pu.Version != "" { // ToSPDX23 documents skipping the others
+			wantSPDX = append(wantSPDX, n)
+		}
+	}
+	dir, err := os.MkdirTemp(os.Getenv("VERIF_SCRATCH"), "c15-")
+	if err != nil {
+		return ev.Outcome{}, fmt.Errorf("harness: %v", err)
+	}
+	defer os.RemoveAll(dir)
+	var formats []c15Format
+	for _, id := range c.Formats {
+		for _, f := range c15Formats {
+			if f.id == id {
+				formats = append(formats, f)
+			}
+		}
+	}
+	for _, f := range formats {
+		path := filepath.Join(dir, f.file)
+		if f.spdx {
+			doc := converter.ToSPDX23(res, converter.SPDXConfig{})
+			if err := bspdx.Write23(doc, path, strings.TrimSuffix(f.id, "+supplier-patched")); err != nil {
+				return ev.Outcome{}, fmt.Errorf("%s: writing the document fails: %v", f.id, err)
+			}
+			if f.patchSupplier {
+				b, err := os.ReadFile(path)
+				if err != nil {
+					return ev.Outcome{}, fmt.Errorf("harness: %v", err)
+				}
+				b = []byte(strings.ReplaceAll(string(b), "\nPackageSupplier: NOASSERTION: NOASSERTION\n", "\nPackageSupplier: NOASSERTION\n"))
+				if err := os.WriteFile(path, b, 0o644); err != nil {
+					return ev.Outcome{}, fmt.Errorf("harness: %v", err)
+				}
+			}
+		} else {
+			bom := converter.ToCDX(res, converter.CDXConfig{ComponentName: "verif", ComponentVersion: "1"})
+			if err := bcdx.Write(bom, path, f.id); err != nil {
+				return ev.Outcome{}, fmt.Errorf("%s: writing the document fails: %v", f.id, err)
+			}
+		}
+	}
+	sr := scalibr.New().Scan(context.Background(), &scalibr.ScanConfig{
+		FilesystemExtractors: []filesystem.Extractor{spdxe.New(), cdxe.New()},
+		ScanRoots:            scalibrfs.RealFSScanRoots(dir),
+	})
+	if sr.Status == nil || sr.Status.Status != plugin.ScanStatusSucceeded {
+		return ev.Outcome{}, fmt.Errorf("scan of the exported SBOMs did not succeed: %+v", sr.Status)
+	}
+	for _, ps := range sr.PluginStatus {
+		if ps.Status != nil && ps.Status.Status != plugin.ScanStatusSucceeded {
+			return ev.Outcome{}, fmt.Errorf("importer %s could not read an SBOM the library wrote: %s%s", ps.Name, ps.Status.FailureReason, describeFiles(dir, ps.Status.FailureReason))
+		}
+	}
+	got := map[string][]string{}
+	for _, p := range sr.Inventory.Packages {
+		if len(p.Locations) == 0 {
+			return ev.Outcome{}, fmt.Errorf("imported package %q has no location", p.Name)
+		}
+		pu := p.Extractor.ToPURL(p)
+		if pu == nil {
+			continue // CPE-only entries; none are exported
+		}
+		n, err := normPurl(pu.String())
+		if err != nil {
+			return ev.Outcome{}, fmt.Errorf("%s: read-back purl %q is not parsable: %v", p.Locations[0], pu.String(), err)
+		}
+		got[p.Locations[0]] = append(got[p.Locations[0]], n)
+	}
+	var classes []string
+	for _, f := range formats {
+		classes = append(classes, "format_"+f.id)
+		want := wantCDX
+		if f.spdx {
+			want = wantSPDX
+		}
+		if d := diffStrings(want, got[f.file]); d != "" {
+			b, _ := os.ReadFile(filepath.Join(dir, f.file))
+			return ev.Outcome{}, fmt.Errorf("%s: exported %d purls, read back %d from %s: %s\n--- %s ---\n%s", f.id, len(want), len(got[f.file]), f.file, d, f.file, clip(b, 2500))
+		}
+	}
+	classes = append(classes, fmt.Sprintf("exported_%s", bucket(len(wantCDX))))
+	if escaping {
+		classes = append(classes, "needs_escaping")
+	}
+	if len(wantCDX) != len(c.Packages) {
+		classes = append(classes, "has_package_without_purl")
+	}
+	if len(wantSPDX) != len(wantCDX) {
+		classes = append(classes, "has_purl_without_version")
+	}
+	seen := map[string]bool{}
+	for _, w := range wantCDX {
+		if seen[w] {
+			classes = append(classes, "has_duplicate")
+			break
+		}
+		seen[w] = true
+	}
+	for _, gp := range c.Packages {
+		if gp.Purl != nil {
+			if gp.Purl.Namespace != "" {
+				classes = append(classes, "has_namespace")
+			}
+			if len(gp.Purl.Qualifiers) > 0 {
+				classes = append(classes, "has_qualifiers")
+			}
+			if gp.Purl.Subpath != "" {
+				classes = append(classes, "has_subpath")
+			}
+		}
+	}
+	return ev.Outcome{NonTrivial: len(wantCDX) >= 2 && escaping, Classes: uniqStr(classes)}, nil
+}
+
+func bucket(n int) string {
+	switch {
+	case n == 0:
+		return "0"
+	case n == 1:
+		return "1"
+	case n <= 4:
+		return "2-4"
+	}
+	return "5+"
+}
+
+func describeFiles(dir, reason string) string {
+	var sb strings.Builder
+	for _, f := range c15Formats {
+		if strings.Contains(reason, f.file) {
+			b, _ := os.ReadFile(filepath.Join(dir, f.file))
+			fmt.Fprintf(&sb, "\n--- %s ---\n%s", f.file, clip(b, 2500))
+		}
+	}
+	return sb.String()
+}
+
+func diffStrings(want, got []string) string {
+	cnt := map[string]int{}
+	for _, s := range want {
+		cnt[s]++
+	}
+	for _, s := range got {
+		cnt[s]--
+	}
+	var missing, extra []string
+	for s, c := range cnt {
+		for ; c > 0; c-- {
+			missing = append(missing, s)
+		}
+		for ; c < 0; c++ {
+			extra = append(extra, s)
+		}
+	}
+	if len(missing) == 0 && len(extra) == 0 {
+		return ""
+	}
+	sort.Strings(missing)
+	sort.Strings(extra)
+	return fmt.Sprintf("exported but not read back: %q; read back but not exported: %q", missing, extra)
+}
+
+func TestC15(t *testing.T) {
+	col := ev.Get("C15")
+	ev.Check(t, col, ev.Scale(ev.IntEnv("VERIF_C15_QUICK", 2000), 2500), genC15(col), propC15)
+}
